@@ -291,11 +291,12 @@ func roundViews(n *vnode) map[string]string {
 }
 
 type nodeRun struct {
-	st   *nodeStats
-	ops  *bufio.Writer
-	obs  *bufio.Writer
-	rng  *rand.Rand
-	tier string
+	tried map[string]bool // (event, mutation kind) pairs already applied
+	st    *nodeStats
+	ops   *bufio.Writer
+	obs   *bufio.Writer
+	rng   *rand.Rand
+	tier  string
 }
 
 func (r *nodeRun) emit(op, ob string) {
@@ -659,6 +660,16 @@ func (r *nodeRun) scenario(outDir string, n, t int, twoRounds bool) {
 			if m.RecipientAddr == "" || m.RecipientAddr == obs.name {
 				muts := r.mutate(c, obs, m, otherRound)
 				r.rng.Shuffle(len(muts), func(i, j int) { muts[i], muts[j] = muts[j], muts[i] })
+				// coverage first: (event, mutation kind) pairs not tried yet in this run come before the others
+				sort.SliceStable(muts, func(i, j int) bool {
+					return !r.tried[m.Event+"/"+muts[i].name] && r.tried[m.Event+"/"+muts[j].name]
+				})
+				// a message a node addresses to itself (the self-confirmation of the deals phase) is rare and special-cased
+				// in the code: it gets every mutation
+				perMsg := perMsg
+				if m.SenderAddr == m.RecipientAddr && m.SenderAddr != "" {
+					perMsg = len(muts)
+				}
 				apply := func(mu mutation) {
 					// messages that must be rejected are tried and rolled back on both sides, so that an accepted one
 					// (reported below) does not derail the ceremony the later inputs are built from
@@ -667,6 +678,7 @@ func (r *nodeRun) scenario(outDir string, n, t int, twoRounds bool) {
 						opName = "trymsg"
 					}
 					res := r.feedOp(c, obs, mu.msg, "mut:"+mu.name, opName)
+					r.tried[m.Event+"/"+mu.name] = true
 					r.st.Mutated++
 					r.st.MutationHist[mu.name+"/"+res.outcome]++
 					if mu.shouldReject {
@@ -676,12 +688,20 @@ func (r *nodeRun) scenario(outDir string, n, t int, twoRounds bool) {
 								clause = "bound_to_round_and_step"
 							}
 							r.mon(fmt.Sprintf("%s %s: mutated message (%s of a genuine %s from %s) was accepted and changed the node state", mu.prop, clause, mu.name, m.Event, m.SenderAddr))
+							// C10: the same acceptance, seen from the participant the payload names: its status or data changed
+							// without a message signed with its own registered key
+							if pid, named := participantOf(mu.msg); named && mu.prop == "C09" {
+								r.mon(fmt.Sprintf("C10 applied_implies_own_key: a %s of a genuine %s, naming participant %d and not signed with that participant's registered key, was accepted and changed the node state", mu.name, m.Event, pid))
+							}
 						} else if res.outcome != "ok" && stripFreshRounds(res.before) != stripFreshRounds(res.after) {
 							r.mon(fmt.Sprintf("%s reject_noop: rejected message (%s of %s) changed the node state", mu.prop, mu.name, m.Event))
 						}
 					}
 				}
 				half := perMsg / 2
+				if perMsg == len(muts) {
+					half = perMsg // self-addressed: everything is tried on the state the genuine message will meet
+				}
 				for i, mu := range muts {
 					if i < half {
 						apply(mu) // before the genuine message
@@ -852,7 +872,7 @@ func runNodeDiff(outDir string, seed int64, tier string) {
 	defer restore()
 	fo, _ := os.Create(filepath.Join(outDir, "ops.txt"))
 	fb, _ := os.Create(filepath.Join(outDir, "go_obs.txt"))
-	r := &nodeRun{st: &nodeStats{MutationHist: map[string]int{}, OutcomeHist: map[string]int{}, DuplicateHist: map[string]int{}}, ops: bufio.NewWriterSize(fo, 1<<20),
+	r := &nodeRun{tried: map[string]bool{}, st: &nodeStats{MutationHist: map[string]int{}, OutcomeHist: map[string]int{}, DuplicateHist: map[string]int{}}, ops: bufio.NewWriterSize(fo, 1<<20),
 		obs: bufio.NewWriterSize(fb, 1<<20), rng: rand.New(rand.NewSource(seed)), tier: tier}
 	cfgs := [][2]int{{3, 2}, {2, 2}}
 	if tier == "thorough" {
